@@ -88,8 +88,8 @@ def build(tier, seed):
         body=r'''
     page = NS(is_first_page=first, is_last_page=last)
     want = shows(KEYS[k], first, last)
-    a = PageRenderer._should_show(NS(), KEYS[k], page)
-    b = PageFeatureProcessor._should_show_element(NS(), KEYS[k], page)
+    a = PageRenderer._should_show(NS.of(PageRenderer), KEYS[k], page)
+    b = PageFeatureProcessor._should_show_element(NS.of(PageFeatureProcessor), KEYS[k], page)
     return bool(a) == want and bool(b) == want
 ''',
         funcs=["rtflite.encoding.renderer:PageRenderer._should_show", "rtflite.pagination.processor:PageFeatureProcessor._should_show_element"],
